@@ -1075,6 +1075,9 @@ class PE(object):
         return Tensor(self.note_loc(("neg", v.term)), v.shape)
       if isinstance(v, FloatTag):
         return mkfloat(-v)
+      if isinstance(v, NArr):
+        return NArr(mkfloat(-e) if isinstance(e, FloatTag) else -e
+                    for e in v)
       return -v
     if isinstance(node.op, ast.UAdd):
       return v
